@@ -7,15 +7,15 @@ PROPERTY_MODULES = {
     "C14": ["seed", "pjax_vmap", "state", "extra", "extra2"],
     "C19": ["state", "extra", "extra2"],
     "C20": ["state_space"],
-    "C11": ["adev", "extra", "extra2"],
-    "C15": ["adev", "extra", "extra2"],
-    "C13": ["distributions", "pjax_vmap", "extra", "extra2"],
-    "C17": ["vi", "choicemap", "core_gfi", "adev"],
+    "C11": ["adev", "extra", "extra2", "adev2"],
+    "C15": ["adev", "extra", "extra2", "adev2"],
+    "C13": ["distributions", "pjax_vmap", "extra", "extra2", "adev2"],
+    "C17": ["vi", "choicemap", "core_gfi", "adev", "adev2"],
     "C10": ["smc", "core_gfi", "combinators", "lemmas", "extra", "fn_whole"],
     "C12": ["smc"],
     "C18": ["mcmc", "state"],
     "C09": ["mcmc", "core_gfi", "combinators", "choicemap", "selection", "fn_whole"],
-    "C06": ["seed", "extra", "extra2"],
+    "C06": ["seed", "extra", "extra2", "adev2"],
     "C07": ["seed", "extra", "pjax_vmap", "extra2"],
     "C01": ["core_gfi", "combinators", "lemmas", "choicemap", "extra2", "fn_whole"],
     "C02": ["core_gfi", "combinators", "lemmas", "pjax_vmap", "extra2", "fn_whole"],
